@@ -43,13 +43,14 @@ Print Assumptions c14_evicts_least_recently_used.
     loader has no freshness information may it instead answer with what an
     earlier load for the same cache key obtained, that entry not having been
     evicted since.  [via] distinguishes a direct get_template from a load made
-    from inside a render (include / render / extends), whose template is
-    rendered with the including template's context.  *)
+    with a render context (include / render / extends, or get_template with a
+    context argument): such a load never re-binds the cached object, and still
+    serves the caller its own globals.  *)
 Theorem c14_caching_transparent : forall c ops name ns g0 a via,
   wf_cfg c -> Forall (wf_op c) ops -> wf_call c ns ->
   let s := final c (init c) ops in
   let ob := fst (step c s (Load name ns g0 a via)) in
-  let g := if via then 0%N else g0 in
+  let g := g0 in
   ob = truth c s name ns g
   \/ (fail_next s = true /\ ob = NotFound)
   \/ ((c_auto_reload c && c_fresh c = false) /\
